@@ -218,7 +218,14 @@ func (c *Compiler) SetGlobalSymbolsIndex() {
 	c.symbolTable.Range(
 		visitParent,
 		func(s *Symbol) bool {
-			if s.Scope == ScopeGlobal && s.Index == -1 {
+			if s.Scope != ScopeGlobal {
+				return true
+			}
+			// The symbol of a re-used symbol table keeps the index it got
+			// for other constants, it is valid only if it still refers to
+			// the name of the global in the constants of this compiler.
+			if s.Index < 0 || s.Index >= len(c.constants) ||
+				c.constants[s.Index] != String(s.Name) {
 				s.Index = c.addConstant(String(s.Name))
 			}
 			return true
